@@ -92,16 +92,16 @@ Section drop.
     x_enter C s X a t o = x_first C X o.
   Proof.
     intros Hs Hfc Hd Hi. unfold x_enter. change (xb C) with c.
-    destruct (verdict_out thr gd ms sh s d a Hfc Hd Hi) as (s1 & tr & sv & EC). fold c in EC. rewrite EC.
+    destruct (verdict_out thr gd ms sh s d a Hfc Hd Hi) as (s1 & tr & sv & EC & ST). fold c in EC. rewrite EC.
     rewrite (x_check_rstack_ok thr gd ms sh s _ Hi).
-    subst c. cbn [plain shp]. rewrite Hs. reflexivity.
+    subst c. cbn [plain shp]. rewrite Hs, ST. reflexivity.
   Qed.
 
   Lemma d_enter_out_cyg s X d a t o : sh = CYG -> fc s = fcd d -> gd <= d -> idx s < ms ->
     x_enter C s X a t o = push (x_first C X o) fx0.
   Proof.
     intros Hs Hfc Hd Hi. unfold x_enter. change (xb C) with c.
-    destruct (verdict_out thr gd ms sh s d a Hfc Hd Hi) as (s1 & tr & sv & EC). fold c in EC. rewrite EC.
+    destruct (verdict_out thr gd ms sh s d a Hfc Hd Hi) as (s1 & tr & sv & EC & _). fold c in EC. rewrite EC.
     rewrite (x_check_rstack_ok thr gd ms sh s _ Hi).
     destruct (enter_out_cyg thr gd ms sh s d a t Hs Hfc Hd Hi) as [Een _]. fold c in Een. rewrite Een.
     cbn [stack]. assert (Hsh : shp c = CYG) by (subst c; cbn [plain shp]; exact Hs). rewrite Hsh.
